@@ -63,6 +63,9 @@ def gen_history(rng: random.Random, nstruct=4, length=12, invalid_p=0.0, max_pin
     if scenario == "hub":
         nstruct = max(nstruct, 3)
         sizes = [rng.randint(2, max(2, max_pins))] + [rng.randint(1, max_pins) for _ in range(nstruct - 1)]
+    if scenario == "expose_wire":
+        nstruct = max(nstruct, 2)
+        sizes = [rng.randint(1, max_pins), rng.randint(1, max_pins)] + [rng.randint(1, max_pins) for _ in range(nstruct - 2)]
     if scenario == "multilink":
         nstruct = max(nstruct, 3)
         sizes = [rng.randint(3, 4), rng.randint(2, 3)] + [rng.randint(1, max_pins) for _ in range(nstruct - 2)]
@@ -107,6 +110,30 @@ def gen_history(rng: random.Random, nstruct=4, length=12, invalid_p=0.0, max_pin
 
     for i in range(min(nstruct, 2)):
         do_add(i)
+    if scenario == "expose_wire":
+        # a pin is exposed under a name while it is free, THEN wired to another structure, and that structure is cut
+        # again (no solve in between): the exposure is part of the circuit that remains
+        if sizes[0] == 0:
+            sizes[0] = 1
+        k = rng.randrange(sizes[0])
+        emit(["map", "x77", [0, k]])
+        tr.mapped["x77"] = (0, k)
+        cand = [j for j in range(1, min(nstruct, 2)) if sizes[j] > 0]
+        if cand:
+            j = cand[0]
+            do_connect((0, k), (j, rng.randrange(sizes[j])))
+            if rng.random() < 0.5 and nstruct >= 3:
+                do_add(2)
+            do_cut(j)
+            tr.mapped["x77"] = (0, k)
+            if rng.random() < 0.5:
+                do_add(j)
+        emit(["raise"])
+        for p in tr.free():
+            if p not in tr.mapped.values():
+                tr.mapped["auto%d_%d" % tuple(p)] = p
+        emit(["solve"])
+        length = len(ops) + rng.randint(0, 4)
     if scenario == "multilink":
         # structure 0 is linked to structure 1 TWICE, with a link to a third structure declared in between; then 1 is
         # taken out (removed or cut) and the history goes on around structure 0 (cut / removed / re-wired / solved)
